@@ -4,6 +4,7 @@ import (
 	"fmt"
 	"strconv"
 	"unicode"
+	"unicode/utf8"
 )
 
 /*
@@ -68,7 +69,7 @@ func parse_regexp_number(regexp_token *Token, regexp string, index int) (int, in
 	result := ""
 	idx := index
 	for idx < len(regexp) && regexp[idx] >= '0' && regexp[idx] <= '9' {
-		result += string(regexp[idx])
+		result += regexp[idx : idx+1]
 		idx += 1
 	}
 	if result == "" {
@@ -154,8 +155,10 @@ func parse_regexp_literal(regexp_token *Token, regexp string, index int) (AstExp
 		exp.Body = &AstPrimary{start}
 		return exp, idx, nil
 	} else {
-		start = &AstString{false, string(c), false}
-		next_index += 1
+		// the whole character, not its first byte re-encoded as a code point
+		_, size := utf8.DecodeRuneInString(regexp[index:])
+		start = &AstString{false, regexp[index : index+size], false}
+		next_index += size
 		exp, idx, err := parse_regexp_quantifier(regexp_token, regexp, next_index)
 		if err != nil {
 			return nil, idx, err
@@ -251,7 +254,7 @@ func parse_regexp_class_atom_string(regexp_token *Token, regexp string, index in
 	if regexp[index] == ']' {
 		return nil, index, nil
 	}
-	return &AstString{false, string(regexp[index]), false}, index + 1, nil
+	return &AstString{false, regexp[index : index+1], false}, index + 1, nil
 }
 
 func parse_regexp_quantifier(regexp_token *Token, regexp string, index int) (*AstLoop, int, error) {
@@ -359,7 +362,7 @@ func parse_regexp_escape_characters(regexp_token *Token, regexp string, index in
 		current_index := index + 2
 		identifier := ""
 		for current_index < len(regexp) && (unicode.IsDigit(rune(regexp[current_index])) || unicode.IsLetter(rune(regexp[current_index]))) {
-			identifier += string(regexp[current_index])
+			identifier += regexp[current_index : current_index+1]
 			current_index += 1
 		}
 		if current_index >= len(regexp) || regexp[current_index] != '>' {
@@ -367,7 +370,8 @@ func parse_regexp_escape_characters(regexp_token *Token, regexp string, index in
 		}
 		return &AstVariable{identifier}, current_index + 1, nil
 	} else {
-		return &AstString{false, string(c), false}, index + 1, nil
+		_, size := utf8.DecodeRuneInString(regexp[index:])
+		return &AstString{false, regexp[index : index+size], false}, index + size, nil
 	}
 }
 
@@ -405,7 +409,7 @@ func parse_regexp_groups(regexp_token *Token, regexp string, index int) (AstLite
 				current_index := index + 2
 				identifier := ""
 				for current_index < len(regexp) && (unicode.IsDigit(rune(regexp[current_index])) || unicode.IsLetter(rune(regexp[current_index]))) {
-					identifier += string(regexp[current_index])
+					identifier += regexp[current_index : current_index+1]
 					current_index += 1
 				}
 				if current_index >= len(regexp) || regexp[current_index] != '>' {
